@@ -66,10 +66,11 @@ type State struct {
 	reach string
 	cells map[*ssa.Alloc]Val
 	heap  map[string]string
+	epoch int // bumped by a total havoc (call of a `havoc` contract): heap components not seen before get a new base version
 }
 
 func (s *State) clone() *State {
-	n := &State{reach: s.reach, cells: make(map[*ssa.Alloc]Val, len(s.cells)), heap: make(map[string]string, len(s.heap))}
+	n := &State{reach: s.reach, epoch: s.epoch, cells: make(map[*ssa.Alloc]Val, len(s.cells)), heap: make(map[string]string, len(s.heap))}
 	for k, v := range s.cells {
 		n.cells[k] = v
 	}
@@ -117,6 +118,7 @@ type frame struct {
 }
 
 type FuncVC struct {
+	epochCtr int
 	G             *Gen
 	Fn            *ssa.Function
 	Key           string
@@ -350,7 +352,7 @@ func (f *FuncVC) heapGet(st *State, key, sort string) string {
 	if t, ok := st.heap[key]; ok {
 		return t
 	}
-	n := key + "@0"
+	n := fmt.Sprintf("%s@%d", key, st.epoch)
 	f.declare(n, sort)
 	st.heap[key] = n
 	return n
@@ -732,9 +734,13 @@ func (f *FuncVC) zeroInit(st *State, l *Loc) {
 		arr := f.heapGet(st, key, elemArraySort(k, w))
 		z := f.zero(a.Elem())
 		if strings.HasPrefix(l.Ref, "new.") {
-			f.assume("(= (select " + arr + " " + l.Ref + ") ((as const (Array Int " + sortOf(k, w) + ")) " + z.T + "))")
+			f.assume(f.allEqual("(select "+arr+" "+l.Ref+")", k, w, z.T))
+		} else if k == KStr {
+			za := f.freshConst("zarr", "(Array Int "+sortOf(k, w)+")")
+			f.assume(f.allEqual(za, k, w, z.T))
+			f.heapSet(st, key, elemArraySort(k, w), "(store "+arr+" "+l.Ref+" "+za+")")
 		} else {
-			f.heapSet(st, key, elemArraySort(k, w), "(store "+arr+" "+l.Ref+" ((as const (Array Int "+sortOf(k, w)+")) "+z.T+"))")
+			f.heapSet(st, key, elemArraySort(k, w), "(store "+arr+" "+l.Ref+" ((as const (Array Int "+sortOf(k, w)+")) "+constLit(z.T)+"))")
 		}
 	default:
 		f.store(st, l, f.zero(l.Typ))
@@ -794,7 +800,15 @@ func (f *FuncVC) mergeStates(conds []string, sts []*State, hint string) *State {
 		n.reach = f.define("reach."+hint, "Bool", conds[0])
 		return n
 	}
-	out := &State{cells: map[*ssa.Alloc]Val{}, heap: map[string]string{}}
+	out := &State{cells: map[*ssa.Alloc]Val{}, heap: map[string]string{}, epoch: sts[0].epoch}
+	for _, s := range sts[1:] {
+		if s.epoch != out.epoch {
+			// some branch went through a total havoc: components nobody has looked at yet are unknown afterwards
+			f.epochCtr++
+			out.epoch = f.epochCtr
+			break
+		}
+	}
 	out.reach = f.define("reach."+hint, "Bool", or(conds...))
 	// cells
 	keys := map[*ssa.Alloc]bool{}
@@ -935,4 +949,24 @@ func (f *FuncVC) flushMarks() {
 		f.emit("(assert (inst! " + m + "))")
 	}
 	f.pendingMarks = nil
+}
+
+// constLit expands the prelude's nullary macros to constructor terms: cvc5 accepts only values in (as const ...).
+func constLit(t string) string {
+	switch t {
+	case "nilslice":
+		return "(mkslice 0 0 0 0)"
+	case "niliface":
+		return "(mkiface 0 0)"
+	}
+	return t
+}
+
+// allEqual states that every element of the array term a equals z. Constant arrays need a value literal (cvc5), which
+// the uninterpreted string sort does not have: a quantified fact is used there.
+func (f *FuncVC) allEqual(a string, k Kind, w int, z string) string {
+	if k == KStr {
+		return "(forall ((k Int)) (! (= (select " + a + " k) " + z + ") :pattern ((select " + a + " k))))"
+	}
+	return "(= " + a + " ((as const (Array Int " + sortOf(k, w) + ")) " + constLit(z) + "))"
 }
